@@ -60,6 +60,10 @@ def variants(lang):
     for c in NEG_LINE + NEG_BLOCK:
         out.append((f"trail:{c}", False, "trail", c))
     out.append(("lead:/* see nocl */", False, "lead", "/* see nocl */"))
+    # TWO comments on the name's line, the marker not being the last one
+    out.append(("trail:/* nocl */ // note", True, "trail", "/* nocl */ // kept for the importer"))
+    out.append(("lead-and-note:/* nocl */", True, "lead-note", "/* nocl */"))
+    out.append(("trail:/* note */ // nocl", True, "trail", "/* kept for the importer */ // nocl"))
     # a leading marker whose line directly follows a line comment / a preprocessor line (comment tokens that touch each other)
     out.append(("lead-below-comment:/* nocl */", True, "lead-below", ("/* nocl */", "// about the next function")))
     if lang in ("C", "C++", "C#"):
@@ -114,14 +118,14 @@ def apply_marker(lang, text, funcs, names, kind, payload):
         line = lines[ln]
         if kind == "trail":
             lines[ln] = line + "  " + payload
-        elif kind in ("lead", "lead-below"):
+        elif kind in ("lead", "lead-below", "lead-note"):
             indent = len(line) - len(line.lstrip())
             if kind == "lead-below":
                 payload_, above = payload
                 inserts.append((ln, line[:indent] + above))
             else:
                 payload_ = payload
-            lines[ln] = line[:indent] + payload_ + " " + line[indent:]
+            lines[ln] = line[:indent] + payload_ + " " + line[indent:] + ("  // kept for the importer" if kind == "lead-note" else "")
             shift = len(payload_) + 1
             for g in funcs:
                 if g["start"][0] == ln + 1:
